@@ -12,8 +12,15 @@ func (c *Conversation) processDisconnectedTLV(t tlv, x dataMessageExtra) (toSend
 	c.ake.wipe(true)
 	c.ake = nil
 
+	// The MAC keys we used in the session that ends here still have to be
+	// revealed - in the next session, there is no other message left to
+	// carry them. (End() and a refresh key exchange keep them the same way.)
+	toReveal := c.keys.macKeysToRevealWhenReplaced()
 	c.keys.wipe()
 	c.keys = keyManagementContext{}
+	if len(toReveal) > 0 {
+		c.keys.oldMACKeys = toReveal
+	}
 
 	return nil, nil
 }
